@@ -197,6 +197,39 @@ def patch():
         return r
     TaskPool.release_queued_tasks = n_rel
 
+    o_hold = TaskPool.hold_tasks
+
+    def n_hold(self, items):
+        matched, unmatched = self.id_match(items)
+        ev("cmd_hold", ids=sorted([int(i["cycle"]), i["task"]] for i in matched), unmatched=len(unmatched))
+        return o_hold(self, items)
+    TaskPool.hold_tasks = n_hold
+
+    o_relh = TaskPool.release_held_tasks
+
+    def n_relh(self, items):
+        from cylc.flow.id_match import id_match as _idm
+        from cylc.flow.id import TaskTokens as _TT
+        matched, unmatched = _idm(
+            self.config, {_TT(cycle=str(c), task=t) for t, c in self.tasks_to_hold}, items, only_match_pool=True)
+        ev("cmd_release", ids=sorted([int(i["cycle"]), i["task"]] for i in matched), unmatched=len(unmatched))
+        return o_relh(self, items)
+    TaskPool.release_held_tasks = n_relh
+
+    o_shp = TaskPool.set_hold_point
+
+    def n_shp(self, point):
+        ev("cmd_hold_point", point=int(str(point)))
+        return o_shp(self, point)
+    TaskPool.set_hold_point = n_shp
+
+    o_rhp = TaskPool.release_hold_point
+
+    def n_rhp(self):
+        ev("cmd_release_hold_point")
+        return o_rhp(self)
+    TaskPool.release_hold_point = n_rhp
+
     o_mf = TaskPool.merge_flows
 
     def n_mf(self, itask, flow_nums):
@@ -257,14 +290,236 @@ class World:
         return p
 
 
+def install_world(schd, world, scn, rng):
+    """Replace the process pool's put_command/process by the recording 'world'."""
+    def put_command(ctx, bad_hosts=None, callback=None, callback_args=None,
+                    callback_255=None, callback_255_args=None):
+        world.pending.append((world.tick, ctx, callback, callback_args or [], callback_255))
+        key = ctx.cmd_key if isinstance(ctx.cmd_key, str) else str(ctx.cmd_key[0])
+        if key == "jobs-submit":
+            its = callback_args[0]
+            ev("submit", jobs=sorted([*tid(t), t.submit_num] for t in its),
+               status=sorted([*tid(t), t.state.status] for t in its))
+        elif key in ("jobs-poll", "jobs-kill"):
+            its = callback_args[0]
+            ev("cmd", key=key, jobs=sorted([*tid(t), t.submit_num] for t in its))
+        else:
+            ev("cmd", key=key)
+
+    schd.proc_pool.put_command = put_command
+    o_process = schd.proc_pool.process
+
+    def process():
+        ev("procpool")
+        todo, world.pending = world.pending, []
+        for due, ctx, cb, cba, cb255 in todo:
+            key = ctx.cmd_key if isinstance(ctx.cmd_key, str) else str(ctx.cmd_key[0])
+            if key == "jobs-submit":
+                out = ""
+                for it in cba[0]:
+                    p, n, sn = int(str(it.point)), it.tdef.name, it.submit_num
+                    plan = world.job_plan(p, n, sn)
+                    ok = plan["submit"] == "ok"
+                    out += (f"[TASK JOB SUMMARY]2020-01-01T00:00:00Z|{it.job_tokens.relative_id}"
+                            f"|{0 if ok else 1}|{1000 + len(world.jobs)}\n")
+                    world.jobs[(p, n, sn)] = plan
+                    ev("submit_result", id=[p, n], submit_num=sn, ok=ok)
+                    if ok:
+                        seq = ["started"] + [f"msg-{c}" for c in plan["customs"]] + [plan["result"]]
+                        t = world.tick
+                        dis = scn.get("disorder", 0.0)
+                        sched = []
+                        for m in seq:
+                            t += rng.choice([0, 0, 1, 1, 2])
+                            sched.append([t, m])
+                        if dis and rng.random() < dis:
+                            k = rng.randrange(len(sched))
+                            sched.append([sched[k][0] + rng.choice([0, 1, 3]), sched[k][1]])   # duplicate
+                        if dis and rng.random() < dis and len(sched) >= 2:
+                            i = rng.randrange(len(sched) - 1)
+                            sched[i][0], sched[i + 1][0] = sched[i + 1][0], sched[i][0]        # out of order
+                        for due_t, m in sched:
+                            world.msgs.append((due_t + 1, it.job_tokens, m, [p, n], sn))
+                ctx.out = out
+                ctx.ret_code = 0
+                cb(ctx, *cba)
+            elif key == "jobs-poll":
+                out = ""
+                for it in cba[0]:
+                    p, n, sn = int(str(it.point)), it.tdef.name, it.submit_num
+                    plan = world.jobs.get((p, n, sn))
+                    ctxd = {"job_runner_name": "background", "job_id": "1", "job_runner_exit_polled": 1}
+                    if plan is None or plan["submit"] != "ok":
+                        ctxd.update({"run_status": None})
+                    else:
+                        left = [m for m in world.msgs if m[3] == [p, n] and m[4] == sn]
+                        names = {m[2] for m in left}
+                        if "started" in names:
+                            ctxd.update({"time_submit_exit": "2020-01-01T00:00:00Z", "job_runner_exit_polled": 0})
+                        elif plan["result"] in names:
+                            ctxd.update({"time_submit_exit": "2020-01-01T00:00:00Z",
+                                         "time_run": "2020-01-01T00:00:01Z", "job_runner_exit_polled": 0})
+                        else:
+                            ctxd.update({"time_submit_exit": "2020-01-01T00:00:00Z",
+                                         "time_run": "2020-01-01T00:00:01Z",
+                                         "time_run_exit": "2020-01-01T00:00:02Z",
+                                         "run_status": 0 if plan["result"] == "succeeded" else 1,
+                                         "run_signal": None if plan["result"] == "succeeded" else "ERR"})
+                    ev("poll_result", id=[p, n], submit_num=sn, ctx=dict(ctxd))
+                    out += (f"[TASK JOB SUMMARY]2020-01-01T00:00:00Z|{it.job_tokens.relative_id}|"
+                            + json.dumps(ctxd) + "\n")
+                ctx.out = out
+                ctx.ret_code = 0
+                cb(ctx, *cba)
+            else:
+                ctx.out = ""
+                ctx.ret_code = 0
+                if cb:
+                    try:
+                        cb(ctx, *cba)
+                    except Exception as exc:      # event handler callbacks etc.
+                        ev("cb_error", key=key, exc=f"{type(exc).__name__}: {exc}")
+        return o_process()
+
+    schd.proc_pool.process = process
+
+
+def snapshot(schd):
+    pool = schd.pool
+    real = [t for m in pool.active_tasks.values() for t in m.values()]
+    snap = {
+        "tasks": sorted((task_view(t) for t in real), key=lambda v: v["id"]),
+        "cached_ok": sorted(map(id, pool.get_tasks())) == sorted(map(id, real)),
+        "empty_buckets": sum(1 for m in pool.active_tasks.values() if not m),
+        "dup_ids": len(real) - len({t.identity for t in real}),
+        "limit": None if pool.runahead_limit_point is None else int(str(pool.runahead_limit_point)),
+        "stop_point": None if pool.stop_point is None else int(str(pool.stop_point)),
+        "hold_point": None if pool.hold_point is None else int(str(pool.hold_point)),
+        "to_hold": sorted([int(str(p)), n] for n, p in pool.tasks_to_hold),
+        "paused": bool(schd.is_paused), "stalled": bool(schd.is_stalled),
+        "stop_mode": None if schd.stop_mode is None else schd.stop_mode.name,
+        "stop_task": pool.stop_task_id,
+        "abs_done": sorted([int(c), t, o] for c, t, o in pool.abs_outputs_done),
+        "flow_counter": schd.flow_mgr.counter,
+    }
+    try:
+        con = sqlite3.connect(f"file:{schd.workflow_db_mgr.pri_path}?mode=ro", uri=True, timeout=1)
+        snap["db_pool"] = sorted(
+            [int(c), n, json.loads(f), s, bool(h)] for c, n, f, s, h in
+            con.execute("SELECT cycle, name, flow_nums, status, is_held FROM task_pool"))
+        con.close()
+    except Exception as exc:
+        snap["db_pool"] = f"ERR {type(exc).__name__}: {exc}"
+    try:
+        ds = schd.data_store_mgr
+        tps = ds.data[ds.workflow_id]["task_proxies"]
+        store = []
+        for t in real:
+            tp = tps.get(t.tokens.id)
+            if tp is None:
+                store.append([*tid(t), None])
+            else:
+                store.append([*tid(t), tp.state, bool(tp.is_held), bool(tp.is_queued), bool(tp.is_runahead),
+                              sorted(json.loads(tp.flow_nums)) if tp.flow_nums else [],
+                              sorted(o.label for o in tp.outputs.values() if o.satisfied),
+                              [bool(p.satisfied) for p in tp.prerequisites]])
+        snap["store"] = sorted(store, key=lambda v: v[:2])
+    except Exception as exc:
+        snap["store"] = f"ERR {type(exc).__name__}: {exc}"
+    return snap
+
+
+async def queue_command(schd, name, kwargs):
+    """Queue a command the way the network layer does (validate, then queue)."""
+    from cylc.flow.commands import COMMANDS
+    from uuid import uuid4
+    cmd = COMMANDS[name](schd=schd, **kwargs)
+    try:
+        await cmd.__anext__()
+    except Exception as exc:
+        ev("op_rejected", cmd=name, exc=f"{type(exc).__name__}: {exc}")
+        return False
+    schd.command_queue.put((str(uuid4()), name, cmd))
+    return True
+
+
+class Session:
+    """One scheduler process lifetime: boot, stepped main loop, shutdown."""
+
+    def __init__(self, wid, scn, world, rng, restart):
+        self.wid, self.scn, self.world, self.rng, self.restart = wid, scn, world, rng, restart
+        self.schd = None
+        self.go = asyncio.Event()
+        self.done = asyncio.Event()
+        self.task = None
+        self.stop_reason = None
+
+    async def boot(self):
+        from cylc.flow.scheduler import Scheduler
+        from cylc.flow.scheduler_cli import RunOptions
+        opts = {"paused_start": False, "run_mode": "live"}
+        opts.update(self.scn.get("options", {}))
+        schd = Scheduler(self.wid, RunOptions(**opts))
+        self.schd = schd
+        await schd.install()
+        ev("boot", restart=self.restart)
+        await schd.start()
+        ev("loaded", restart=self.restart)
+        schd.main_loop_plugins = {}     # no health-check / auto-restart plugins
+        install_world(schd, self.world, self.scn, self.rng)
+        orig = schd._main_loop
+        sess = self
+
+        async def stepped():
+            sess.done.set()
+            await sess.go.wait()
+            sess.go.clear()
+            await orig()
+        schd._main_loop = stepped
+        o_shutdown = schd.shutdown
+
+        async def shutdown(reason):
+            sess.stop_reason = str(reason.args[0]) if getattr(reason, "args", None) else type(reason).__name__
+            ev("shutdown", reason=sess.stop_reason, snap=snapshot(schd))
+            return await o_shutdown(reason)
+        schd.shutdown = shutdown
+        self.task = asyncio.ensure_future(schd.run_scheduler())
+        await self.wait_step()      # runs the start-up part of run_scheduler up to the first _main_loop
+        return schd
+
+    async def wait_step(self):
+        """wait until the scheduler is parked at the start of a main-loop iteration, or has exited"""
+        w = asyncio.ensure_future(self.done.wait())
+        await asyncio.wait({w, self.task}, return_when=asyncio.FIRST_COMPLETED)
+        if not w.done():
+            w.cancel()
+        self.done.clear()
+        return not self.task.done()
+
+    async def tick(self):
+        self.go.set()
+        return await self.wait_step()
+
+    async def finish(self):
+        """Force a shutdown if still running."""
+        if self.task is not None and not self.task.done():
+            self.task.cancel()
+            try:
+                await asyncio.wait_for(self.task, timeout=10)
+            except BaseException:    # noqa
+                pass
+        elif self.task is not None:
+            try:
+                self.task.result()
+            except BaseException:    # noqa
+                pass
+
+
 async def run_scenario(scn: dict, home: Path) -> dict:
     """Run one scenario; returns {"trace": [...], "meta": {...}}."""
     patch()
-    from cylc.flow.scheduler import Scheduler, SchedulerStop
-    from cylc.flow.scheduler_cli import RunOptions
+    from cylc.flow.scheduler import Scheduler
     from cylc.flow.network.resolvers import TaskMsg
-    from cylc.flow.exceptions import CylcError
-    from cylc.flow import commands as cmds_mod
 
     REC.clear()
     _OWNER.clear()
@@ -274,173 +529,38 @@ async def run_scenario(scn: dict, home: Path) -> dict:
     (rd / "flow.cylc").write_text(S.render_flow(scn))
     rng = random.Random(scn.get("seed", 0))
     world = World(scn, rng)
-    meta = {"wid": wid, "error": None, "stop": None, "ticks": 0}
+    meta = {"wid": wid, "error": None, "stop": None, "ticks": 0, "restarts": 0}
     Scheduler.INTERVAL_MAIN_LOOP = 0.0
     Scheduler.INTERVAL_MAIN_LOOP_QUICK = 0.0
-    schd_box = {}
-
-    async def boot(restart=False):
-        opts = {"paused_start": False, "run_mode": "live"}
-        opts.update(scn.get("options", {}))
-        schd = Scheduler(wid, RunOptions(**opts))
-        await schd.install()
-        ev("boot", restart=restart)
-        await schd.start()
-        schd.main_loop_plugins = {}     # no health-check / auto-restart plugins
-
-        def put_command(ctx, bad_hosts=None, callback=None, callback_args=None,
-                        callback_255=None, callback_255_args=None):
-            world.pending.append((world.tick, ctx, callback, callback_args or [], callback_255))
-            key = ctx.cmd_key if isinstance(ctx.cmd_key, str) else str(ctx.cmd_key[0])
-            if key == "jobs-submit":
-                its = callback_args[0]
-                ev("submit", jobs=sorted([*tid(t), t.submit_num] for t in its),
-                   status=sorted([*tid(t), t.state.status] for t in its))
-            elif key in ("jobs-poll", "jobs-kill"):
-                its = callback_args[0]
-                ev("cmd", key=key, jobs=sorted([*tid(t), t.submit_num] for t in its))
-            else:
-                ev("cmd", key=key)
-
-        schd.proc_pool.put_command = put_command
-        o_process = schd.proc_pool.process
-
-        def process():
-            ev("procpool")
-            todo, world.pending = world.pending, []
-            for due, ctx, cb, cba, cb255 in todo:
-                key = ctx.cmd_key if isinstance(ctx.cmd_key, str) else str(ctx.cmd_key[0])
-                if key == "jobs-submit":
-                    out = ""
-                    for it in cba[0]:
-                        p, n, sn = int(str(it.point)), it.tdef.name, it.submit_num
-                        plan = world.job_plan(p, n, sn)
-                        ok = plan["submit"] == "ok"
-                        out += (f"[TASK JOB SUMMARY]2020-01-01T00:00:00Z|{it.job_tokens.relative_id}"
-                                f"|{0 if ok else 1}|{1000 + len(world.jobs)}\n")
-                        world.jobs[(p, n, sn)] = plan
-                        ev("submit_result", id=[p, n], submit_num=sn, ok=ok)
-                        if ok:
-                            seq = ["started"] + [f"msg-{c}" for c in plan["customs"]] + [plan["result"]]
-                            t = world.tick
-                            dis = scn.get("disorder", 0.0)
-                            sched = []
-                            for m in seq:
-                                t += rng.choice([0, 0, 1, 1, 2])
-                                sched.append([t, m])
-                            if dis and rng.random() < dis:
-                                k = rng.randrange(len(sched))
-                                sched.append([sched[k][0] + rng.choice([0, 1, 3]), sched[k][1]])   # duplicate
-                            if dis and rng.random() < dis and len(sched) >= 2:
-                                i = rng.randrange(len(sched) - 1)
-                                sched[i][0], sched[i + 1][0] = sched[i + 1][0], sched[i][0]        # out of order
-                            for due_t, m in sched:
-                                world.msgs.append((due_t + 1, it.job_tokens, m, [p, n], sn))
-                    ctx.out = out
-                    ctx.ret_code = 0
-                    cb(ctx, *cba)
-                elif key == "jobs-poll":
-                    # report the job's true state as far as its messages were generated
-                    out = ""
-                    for it in cba[0]:
-                        p, n, sn = int(str(it.point)), it.tdef.name, it.submit_num
-                        plan = world.jobs.get((p, n, sn))
-                        ctxd = {"job_runner_name": "background", "job_id": "1", "job_runner_exit_polled": 1}
-                        if plan is None or plan["submit"] != "ok":
-                            ctxd.update({"run_status": None})
-                        else:
-                            # has every message been delivered already?
-                            left = [m for m in world.msgs if m[3] == [p, n] and m[4] == sn]
-                            names = {m[2] for m in left}
-                            if "started" in names:
-                                ctxd.update({"time_submit_exit": "2020-01-01T00:00:00Z"})
-                            elif plan["result"] in names:
-                                ctxd.update({"time_submit_exit": "2020-01-01T00:00:00Z",
-                                             "time_run": "2020-01-01T00:00:01Z", "job_runner_exit_polled": 0})
-                            else:
-                                ctxd.update({"time_submit_exit": "2020-01-01T00:00:00Z",
-                                             "time_run": "2020-01-01T00:00:01Z",
-                                             "time_run_exit": "2020-01-01T00:00:02Z",
-                                             "run_status": 0 if plan["result"] == "succeeded" else 1,
-                                             "run_signal": None if plan["result"] == "succeeded" else "ERR"})
-                        ev("poll_result", id=[p, n], submit_num=sn, ctx={k: v for k, v in ctxd.items()})
-                        out += (f"[TASK JOB SUMMARY]2020-01-01T00:00:00Z|{it.job_tokens.relative_id}|"
-                                + json.dumps(ctxd) + "\n")
-                    ctx.out = out
-                    ctx.ret_code = 0
-                    cb(ctx, *cba)
-                else:
-                    ctx.out = ""
-                    ctx.ret_code = 0
-                    if cb:
-                        try:
-                            cb(ctx, *cba)
-                        except Exception as exc:      # event handler callbacks etc.
-                            ev("cb_error", key=key, exc=f"{type(exc).__name__}: {exc}")
-            return o_process()
-
-        schd.proc_pool.process = process
-        return schd
-
-    def snapshot(schd):
-        pool = schd.pool
-        real = [t for m in pool.active_tasks.values() for t in m.values()]
-        snap = {
-            "tasks": sorted((task_view(t) for t in real), key=lambda v: v["id"]),
-            "cached_ok": sorted(map(id, pool.get_tasks())) == sorted(map(id, real)),
-            "empty_buckets": sum(1 for m in pool.active_tasks.values() if not m),
-            "dup_ids": len(real) - len({t.identity for t in real}),
-            "limit": None if pool.runahead_limit_point is None else int(str(pool.runahead_limit_point)),
-            "stop_point": None if pool.stop_point is None else int(str(pool.stop_point)),
-            "hold_point": None if pool.hold_point is None else int(str(pool.hold_point)),
-            "to_hold": sorted([n, int(str(p))] for n, p in pool.tasks_to_hold),
-            "paused": bool(schd.is_paused), "stalled": bool(schd.is_stalled),
-            "stop_mode": None if schd.stop_mode is None else schd.stop_mode.name,
-            "abs_done": sorted([int(c), t, o] for c, t, o in pool.abs_outputs_done),
-            "flow_counter": schd.flow_mgr.counter,
-        }
-        # private DB view (separate read connection)
-        try:
-            con = sqlite3.connect(f"file:{schd.workflow_db_mgr.pri_path}?mode=ro", uri=True, timeout=1)
-            snap["db_pool"] = sorted(
-                [int(c), n, json.loads(f), s, bool(h)] for c, n, f, s, h in
-                con.execute("SELECT cycle, name, flow_nums, status, is_held FROM task_pool"))
-            con.close()
-        except Exception as exc:
-            snap["db_pool"] = f"ERR {type(exc).__name__}: {exc}"
-        # data store view
-        try:
-            ds = schd.data_store_mgr
-            tps = ds.data[ds.workflow_id]["task_proxies"]
-            store = []
-            for t in real:
-                tp = tps.get(t.tokens.id)
-                if tp is None:
-                    store.append([*tid(t), None])
-                else:
-                    store.append([*tid(t), tp.state, bool(tp.is_held), bool(tp.is_queued), bool(tp.is_runahead),
-                                  sorted(json.loads(tp.flow_nums)) if tp.flow_nums else [],
-                                  sorted(o.label for o in tp.outputs.values() if o.satisfied),
-                                  [bool(p.satisfied) for p in tp.prerequisites]])
-            snap["store"] = sorted(store, key=lambda v: v[:2])
-        except Exception as exc:
-            snap["store"] = f"ERR {type(exc).__name__}: {exc}"
-        return snap
-
-    schd = None
+    Scheduler.INTERVAL_STOP_PROCESS_POOL_EMPTY = 0.0
+    sess = None
     try:
-        schd = await boot()
+        sess = Session(wid, scn, world, rng, restart=False)
+        schd = await sess.boot()
         ev("started", snap=snapshot(schd),
-           seq_points={t: [int(str(p)) for s in td.sequences
-                           for p in _iter_seq(s, schd.config.initial_point, schd.config.final_point)]
+           seq_points={t: [int(str(p)) for s_ in td.sequences
+                           for p in _iter_seq(s_, schd.config.initial_point, schd.config.final_point)]
                        for t, td in schd.config.taskdefs.items()})
         max_ticks = scn.get("max_ticks", 60)
-        ops = {o["tick"]: o for o in scn.get("ops", [])}
+        ops = {}
+        for o in scn.get("ops", []):
+            ops.setdefault(o["tick"], []).append(o)
         idle = 0
+        pending_restart = None
         for tick in range(max_ticks):
             world.tick = tick
             meta["ticks"] = tick + 1
-            # deliver due messages (through the real message queue)
+            for o in ops.get(tick, []):
+                ev("op", op=o)
+                if o["cmd"] == "restart":
+                    # stop (clean / now), keep ticking until the scheduler exits, then boot again
+                    from cylc.flow.workflow_status import StopMode
+                    mode = {"clean": StopMode.REQUEST_CLEAN, "now": StopMode.REQUEST_NOW,
+                            "now-now": StopMode.REQUEST_NOW_NOW}[o.get("mode", "now")]
+                    await queue_command(schd, "stop", {"mode": mode})
+                    pending_restart = o
+                else:
+                    await queue_command(schd, o["cmd"], o.get("args", {}))
             due = [m for m in world.msgs if m[0] <= tick]
             world.msgs = [m for m in world.msgs if m[0] > tick]
             for _, jt, m, i, sn in due:
@@ -448,15 +568,23 @@ async def run_scenario(scn: dict, home: Path) -> dict:
                 schd.message_queue.put(TaskMsg(jt, "2020-01-01T00:00:00Z", "INFO", m))
             ev("tick", n=tick)
             n0 = len(REC)
-            try:
-                await schd._main_loop()
-            except SchedulerStop as exc:
-                ev("shutdown", reason=str(exc.args[0]) if exc.args else "", snap=snapshot(schd))
-                meta["stop"] = str(exc.args[0]) if exc.args else ""
+            alive = await sess.tick()
+            if not alive:
+                await sess.finish()
+                meta["stop"] = sess.stop_reason
+                if pending_restart is not None:
+                    pending_restart = None
+                    meta["restarts"] += 1
+                    sess = Session(wid, scn, world, rng, restart=True)
+                    schd = await sess.boot()
+                    ev("restarted", snap=snapshot(schd))
+                    meta["stop"] = None
+                    idle = 0
+                    continue
                 break
             ev("tick_end", n=tick, snap=snapshot(schd))
             busy = any(e["e"] not in ("procpool", "limit", "release", "release_begin") for e in REC[n0:-1])
-            idle = 0 if (busy or world.msgs or world.pending) else idle + 1
+            idle = 0 if (busy or world.msgs or world.pending or ops.keys() and max(ops) >= tick) else idle + 1
             if idle >= 3:
                 meta["stop"] = "quiescent"
                 break
@@ -467,10 +595,9 @@ async def run_scenario(scn: dict, home: Path) -> dict:
         meta["error"] = f"{type(exc).__name__}: {exc}"
         meta["tb"] = traceback.format_exc()[-1500:]
     finally:
-        if schd is not None:
+        if sess is not None:
             try:
-                from cylc.flow.scheduler import SchedulerStop as SS
-                await asyncio.wait_for(schd.shutdown(SS("harness")), timeout=10)
+                await sess.finish()
             except BaseException:   # noqa
                 pass
         shutil.rmtree(rd, ignore_errors=True)
